@@ -443,6 +443,15 @@ qb_loop_poll_mod(struct qb_loop * lp,
 		}
 		pe->poll_dispatch_fn = dispatch_fn;
 		pe->item.user_data = data;
+		if (pe->p != p && pe->state == QB_POLL_ENTRY_JOBLIST &&
+		    !qb_list_empty(&pe->item.list)) {
+			/*
+			 * waiting to be dispatched at the old priority: move
+			 * it, each level keeps count of what it has queued
+			 */
+			qb_loop_level_item_del(&l->level[pe->p], &pe->item);
+			qb_loop_level_item_add(&l->level[p], &pe->item);
+		}
 		pe->p = p;
 		if (pe->ufd.events != events) {
 			res = s->driver.mod(s, pe, fd, events);
